@@ -70,7 +70,21 @@ CSMesh(n) ==
                            x == r % n
                        IN << id(t, y, x), id(t, y, x + 1), id(t, y + 1, x + 1), id(t, y + 1, x) >> ] ]
 
-Poly(id, m, cs) == [ id |-> id, nodes |-> m.nodes, faces |-> m.faces, cs |-> cs ]
+Poly(id, m, cs) == [ id |-> id, nodes |-> m.nodes, faces |-> m.faces, cs |-> cs, xrows |-> <<>>, big |-> FALSE ]
+Big(p) == [ p EXCEPT !.big = TRUE ]       \* a few hundred faces: the dialect lattice is thinned on such meshes
+
+(* A regional (limited-area) MPAS file seen through its DUAL: m is a closed triangle mesh whose nodes are the
+   MPAS cells and whose faces are the MPAS vertices; the cells in R are absent from the file.  Every vertex
+   that still touches a cell is in the file; a slot of cellsOnVertex whose cell is absent holds 0.
+   nodes: the remaining cells, renumbered; faces: the complete triangles; xrows: ALL rows, -1 = absent cell *)
+Regional(id, m, R) ==
+    LET keep == SelectSeq([ k \in 1..Len(m.nodes) |-> k - 1 ], LAMBDA n : n \notin R)
+        newid(n) == IF n \in R THEN -1 ELSE (CHOOSE k \in 1..Len(keep) : keep[k] = n) - 1
+        rows == SelectSeq(m.faces, LAMBDA f : \E j \in 1..Len(f) : f[j] \notin R)
+        ren  == [ r \in 1..Len(rows) |-> [ j \in 1..Len(rows[r]) |-> newid(rows[r][j]) ] ]
+    IN [ id |-> id, nodes |-> [ k \in 1..Len(keep) |-> m.nodes[keep[k] + 1] ],
+         faces |-> SelectSeq(ren, LAMBDA f : \A j \in 1..Len(f) : f[j] # -1),
+         cs |-> 0, xrows |-> ren, big |-> FALSE ]
 FacesAvoiding(m, v) == { k \in 1..Len(m.faces) : v \notin Corners(m.faces[k]) }
 WithoutNode(m, v)   == SubMesh(m, FacesAvoiding(m, v), m.name)     \* node v stays in the node list, unused
 CutEvery(m, c)      == SubMesh(m, { f \in 1..Len(m.faces) : f % c # 0 }, m.name)
@@ -94,8 +108,11 @@ MeshList == <<
     Poly("truncated_cube_split_minus_node0_r3", Rot(WithoutNode(TruncCubeSplit, 0), 3), 0),  \* 15 partial 3/7/8, node 0 unused
     Poly("octahedron_r5",                Rot(Octahedron, 5), 0),                     \* 16
     Poly("truncated_octahedron_split_r20", Rot(TruncOctaSplit, 20), 0),              \* 17
-    Poly("cube_minus_node0",             WithoutNode(Cube, 0), 0)                    \* 18 partial, uniform, node 0 unused:
+    Poly("cube_minus_node0",             WithoutNode(Cube, 0), 0),                   \* 18 partial, uniform, node 0 unused:
                                                                                      \*    the least stored index is not the index base
+    Regional("tetrakis_cube_regional",   TetrakisCube, { 0, 3 }),                    \* 19 partial triangles; as an MPAS dual: absent cells
+    Big(Poly("cubed_sphere_4",           CSMesh(4), 4)),                             \* 20 96 quads
+    Big(Poly("cubed_sphere_6",           CSMesh(6), 6))                              \* 21 216 quads
   >>
 
 NN(m)        == Len(m.nodes)
@@ -112,7 +129,10 @@ MeshWellFormed(m) == IF IsClosed(m) THEN ClosedOK(m) ELSE PartialOK(m)
 RECURSIVE SumVec(_, _)
 SumVec(vs, k) == IF k = 0 THEN Zero3
                  ELSE LET s == SumVec(vs, k - 1) IN << s[1] + vs[k][1], s[2] + vs[k][2], s[3] + vs[k][3] >>
-CentreDir(m, f) == LET vs == FaceDirs(m, f) IN SumVec(vs, Len(vs))
+\* ... with the first corner counted twice: strictly inside the (convex) face but NOT its centroid, so a
+\* reader that recomputes centres instead of carrying the supplied ones is seen
+CentreDir(m, f) == LET vs == FaceDirs(m, f)  s == SumVec(vs, Len(vs))
+                   IN << s[1] + vs[1][1], s[2] + vs[1][2], s[3] + vs[1][3] >>
 CentreDirs(m)   == [ f \in 1..Len(m.faces) |-> CentreDir(m, f) ]
 
 (* ======================================================================= *)
@@ -134,6 +154,13 @@ MaxLen(rows) == MaxOr0({ Len(rows[r]) : r \in 1..Len(rows) })
 Pad(rows, w) == [ r \in 1..Len(rows) |-> [ j \in 1..w |-> IF j <= Len(rows[r]) THEN rows[r][j] ELSE PAD ] ]
 PadMax(rows) == Pad(rows, MaxLen(rows))
 
+(* per-element quantities a source may supply (areas, edge lengths): abstract TAGS.  The harness stores
+   tag / 4096 (areas) resp. tag / 1024 (distances) - exactly representable - and reads the Grid's values
+   back as tags; "carried over with the same meaning" = the right tags under the right name in element order *)
+AreaTags(n)  == [ k \in 1..n |-> k ]
+DvTags(n)    == [ k \in 1..n |-> k ]              \* distance between the two MPAS vertices of an edge
+DcTags(n)    == [ k \in 1..n |-> 2048 + k ]       \* distance between the two MPAS cells of an edge
+
 (* rows: unpadded index rows; stored with a base and a padding value *)
 EncTable(rows, w, base, fillv) ==
     [ r \in 1..Len(rows) |-> [ j \in 1..w |-> IF j <= Len(rows[r]) THEN rows[r][j] + base ELSE fillv ] ]
@@ -147,8 +174,8 @@ Routes == { "ugrid", "mpas", "mpas_dual", "scrip", "exodus", "esmf", "geos", "ic
 
 Applies(m, route) ==
     CASE route = "geos"      -> m.cs > 0
-      [] route = "icon"      -> Triangles(m) /\ IsClosed(m)
-      [] route = "mpas_dual" -> Triangles(m) /\ IsClosed(m)
+      [] route = "icon"      -> Triangles(m)                       \* boundary: 0 in the slot of the absent cell
+      [] route = "mpas_dual" -> Triangles(m) /\ (IsClosed(m) \/ m.xrows # <<>>)
       [] OTHER               -> TRUE
 
 (* ---- UGRID ---------------------------------------------------------------- *)
@@ -193,8 +220,13 @@ UgridDecodeTable(src, T) ==
 (* ---- from_topology (explicit arrays) ----------------------------------------- *)
 TopoDs(m) ==
     { d \in [ fill : { "none", "m1", "bigfill" }, start : { "0", "1" }, dtype : { "int32", "int64" },
-              via : { "classmethod", "open_grid" }, extras : { "none", "edges", "edge_only" } ] :
+              via : { "classmethod", "open_grid" }, extras : { "none", "edges", "edge_only" },
+              box : { "ndarray", "list", "tuple", "readonly" }, dims : { "no", "yes" } ] :
         /\ (d.extras = "edge_only" => d.via = "classmethod")
+        \* containers other than a writable ndarray, and dims_dict: independent of the other knobs
+        /\ (d.box # "ndarray" => d.via = "classmethod" /\ d.dims = "no" /\ d.extras # "edge_only")
+        /\ (d.box \in { "list", "tuple" } => d.dtype = "int64")          \* python ints have no width
+        /\ (d.dims = "yes" => d.via = "classmethod" /\ d.extras = "none")
         /\ (d.fill = "none" => Uniform(m))
         /\ (d.fill = "bigfill" => d.dtype = "int64") }      \* the platform fill only fits the platform integer
 TopoFill(d) == CASE d.fill = "m1" -> -1 [] d.fill = "bigfill" -> BIGFILL [] OTHER -> NOFILL
@@ -203,6 +235,7 @@ TopoStored(m, d) ==
         fv == TopoFill(d)
         E == SrcEdges(m.faces)
     IN [ route |-> "topology", fill_value |-> fv, start_index |-> b, dtype |-> d.dtype, via |-> d.via,
+         box |-> d.box, dims_dict |-> d.dims = "yes",
          face_node |-> EncTable(m.faces, Wd(m), b, fv),
          edge_node |-> IF d.extras # "none" THEN EncTable(E, 2, b, fv) ELSE <<>>,
          face_edge |-> IF d.extras = "edges" THEN EncTable(SrcFaceEdges(m.faces, E), Wd(m), b, fv) ELSE <<>> ]
@@ -228,26 +261,44 @@ MpasStored(m, d) ==
          centres        |-> d.extras = "edges",
          verticesOnEdge |-> IF d.extras = "edges" THEN EncTable(E, 2, 1, 0) ELSE <<>>,
          edgesOnCell    |-> IF d.extras = "edges" THEN MpasPadRows(SrcFaceEdges(m.faces, E), Wd(m), d.pad) ELSE <<>>,
-         cellsOnEdge    |-> IF d.extras = "edges" THEN EncTable(SrcEdgeFaces(m.faces, E), 2, 1, 0) ELSE <<>> ]
+         cellsOnEdge    |-> IF d.extras = "edges" THEN EncTable(SrcEdgeFaces(m.faces, E), 2, 1, 0) ELSE <<>>,
+         areaCell       |-> IF d.extras = "edges" THEN AreaTags(Len(m.faces)) ELSE <<>>,
+         dvEdge         |-> IF d.extras = "edges" THEN DvTags(Len(E)) ELSE <<>>,
+         dcEdge         |-> IF d.extras = "edges" THEN DcTags(Len(E)) ELSE <<>> ]
 MpasDecodeCounted(T, cnt) ==
     [ r \in 1..Len(T) |-> [ j \in 1..Len(T[r]) |-> IF j <= cnt[r] /\ T[r][j] # 0 THEN T[r][j] - 1 ELSE PAD ] ]
 MpasDecodeZeros(T) ==
     [ r \in 1..Len(T) |-> [ j \in 1..Len(T[r]) |-> IF T[r][j] # 0 THEN T[r][j] - 1 ELSE PAD ] ]
 
 (* ---- MPAS dual: one triangle per MPAS vertex, its corners are the cells around it ----- *)
-MpasDualDs(m) == { [ xyz |-> x ] : x \in { "no", "yes" } }
+MpasDualDs(m) == { d \in [ xyz : { "no", "yes" }, extras : { "none", "edges" } ] : m.xrows # <<>> => d.extras = "none" }
+\* the stored rows: all vertices of the file; an absent cell is 0
+DualRows(m) == IF m.xrows # <<>> THEN m.xrows ELSE m.faces
 MpasDualStored(m, d) ==
-    LET NF == SrcNodeFaces(m.faces, NN(m))
+    LET rows == DualRows(m)
+        NF == [ n \in 1..NN(m) |-> SetToSortSeq({ r - 1 : r \in { q \in 1..Len(rows) : \E j \in 1..3 : rows[q][j] = n - 1 } }, Lt) ]
+        E  == SrcEdges(m.faces)
+        ed == d.extras = "edges"
     IN [ route |-> "mpas_dual", xyz |-> d.xyz = "yes",
-         cellsOnVertex  |-> EncTable(m.faces, 3, 1, 0),
+         cellsOnVertex  |-> [ r \in 1..Len(rows) |-> [ j \in 1..3 |-> rows[r][j] + 1 ] ],       \* -1 -> 0
          verticesOnCell |-> EncTable(NF, MaxLen(NF), 1, 0),
          nEdgesOnCell   |-> [ n \in 1..NN(m) |-> Len(NF[n]) ],
-         centres        |-> TRUE ]
+         centres        |-> TRUE,
+         \* on the dual an edge's nodes are the two cells, its faces the two vertices
+         cellsOnEdge    |-> IF ed THEN EncTable(E, 2, 1, 0) ELSE <<>>,
+         verticesOnEdge |-> IF ed THEN EncTable(SrcEdgeFaces(m.faces, E), 2, 1, 0) ELSE <<>>,
+         edgesOnVertex  |-> IF ed THEN EncTable(SrcFaceEdges(m.faces, E), 3, 1, 0) ELSE <<>>,
+         areaTriangle   |-> IF ed THEN AreaTags(Len(m.faces)) ELSE <<>>,
+         dvEdge         |-> IF ed THEN DvTags(Len(E)) ELSE <<>>,
+         dcEdge         |-> IF ed THEN DcTags(Len(E)) ELSE <<>> ]
+\* the cells of a row that are present, in their order
+Present(row) == SelectSeq(row, LAMBDA x : x # 0)
+MpasDualDecode(T) == [ r \in 1..Len(T) |-> LET p == Present(T[r]) IN [ j \in 1..Len(T[r]) |-> IF j <= Len(p) THEN p[j] - 1 ELSE PAD ] ]
 
 (* ---- SCRIP: corner lists, a smaller cell repeats its last corner ------------------------ *)
-ScripDs(m) == { [ lon |-> l ] : l \in { "pm180", "p360" } }
+ScripDs(m) == [ lon : { "pm180", "p360" }, units : { "degrees", "radians" } ]
 ScripStored(m, d) ==
-    [ route |-> "scrip", lon |-> d.lon, centres |-> TRUE,
+    [ route |-> "scrip", lon |-> d.lon, units |-> d.units, centres |-> TRUE, grid_area |-> AreaTags(Len(m.faces)),
       corners |-> [ f \in 1..Len(m.faces) |-> [ j \in 1..Wd(m) |->
                       IF j <= Len(m.faces[f]) THEN m.faces[f][j] ELSE m.faces[f][Len(m.faces[f])] ] ] ]
 \* number of corners of a stored row: trailing repetitions of the last corner are padding
@@ -289,6 +340,7 @@ EsmfStored(m, d) ==
     LET b == IF d.start = "0" THEN 0 ELSE 1
         pv == CASE d.padv = "m1" -> -1 [] d.padv = "zero" -> 0 [] OTHER -> 77
     IN [ route |-> "esmf", lon |-> d.lon, centres |-> d.centres = "yes",
+         elementArea |-> IF d.centres = "yes" THEN AreaTags(Len(m.faces)) ELSE <<>>,
          attrs |-> Opt(d.start # "absent", [ start_index |-> b ]),
          elementConn |-> EncTable(m.faces, Wd(m), b, pv),
          numElementConn |-> [ f \in 1..Len(m.faces) |-> Len(m.faces[f]) ] ]
@@ -315,14 +367,23 @@ GeosDecode(src) ==
 
 (* ---- ICON: transposed 1-based tables, triangles ------------------------------------------------ *)
 IconDs(m) == { [ std |-> "std" ] }
+\* a boundary has 0 in the slot of the absent cell - wherever that slot is
+IconSlots(rows) == [ r \in 1..Len(rows) |-> [ j \in 1..Len(rows[r]) |-> rows[r][j] + 1 ] ]     \* -1 -> 0
+IconFaceFaces(faces) == [ f \in 1..Len(faces) |-> [ j \in 1..3 |->
+                           LET o == FacesOfSide(faces, SideAt(faces[f], j)) \ { f }
+                           IN IF o = {} THEN -1 ELSE (CHOOSE g \in o : TRUE) - 1 ] ]
+\* cells of an edge; for a boundary edge the absent cell takes the FIRST slot on odd edges, the second on even ones
+IconEdgeFaces(faces, E) == [ k \in 1..Len(E) |->
+                              LET cs == SetToSortSeq({ f - 1 : f \in FacesOfSide(faces, { E[k][1], E[k][2] }) }, Lt)
+                              IN IF Len(cs) = 2 THEN cs ELSE IF k % 2 = 1 THEN << -1, cs[1] >> ELSE << cs[1], -1 >> ]
 IconStored(m, d) ==
     LET E == SrcEdges(m.faces)
     IN [ route |-> "icon", centres |-> TRUE,
          vertex_of_cell        |-> Transposed(EncTable(m.faces, 3, 1, 0), 3),
          edge_vertices         |-> Transposed(EncTable(E, 2, 1, 0), 2),
          edge_of_cell          |-> Transposed(EncTable(SrcFaceEdges(m.faces, E), 3, 1, 0), 3),
-         adjacent_cell_of_edge |-> Transposed(EncTable(SrcEdgeFaces(m.faces, E), 2, 1, 0), 2),
-         neighbor_cell_index   |-> Transposed(EncTable(SrcFaceFaces(m.faces), 3, 1, 0), 3) ]
+         adjacent_cell_of_edge |-> Transposed(IconSlots(IconEdgeFaces(m.faces, E)), 2),
+         neighbor_cell_index   |-> Transposed(IconSlots(IconFaceFaces(m.faces)), 3) ]
 IconDecodeTable(T) == LET U == Untransposed(T) IN [ r \in 1..Len(U) |-> [ j \in 1..Len(U[r]) |-> U[r][j] - 1 ] ]
 
 (* ---- GeoJSON / shapefile: one face per exterior ring, rings closed ------------------------------- *)
@@ -369,7 +430,15 @@ VertsDecode(src) == [ f \in 1..Len(src.corners) |-> [ j \in 1..Len(src.corners[f
 (* ======================================================================= *)
 (* dispatch                                                                *)
 (* ======================================================================= *)
-DialectsOf(m, route) ==
+\* on meshes of a few hundred faces one variant of every knob that is independent of the mesh size is kept
+ThinOK(route, d) ==
+    CASE route = "ugrid"    -> d.names = "arbitrary" /\ d.topo = "attr" /\ d.lon = "p360" /\ d.dtype \in { "int32", "float64" } /\ d.extras # "edge_only"
+      [] route = "topology" -> d.via = "classmethod" /\ d.box = "ndarray" /\ d.dims = "no" /\ d.dtype = "int32" /\ d.extras # "edge_only"
+      [] route = "verts"    -> d.box = "ndarray" /\ d.via = "classmethod"
+      [] route = "esmf"     -> d.lon = "p360" /\ d.padv = "m1"
+      [] route = "geo"      -> d.kind = "mixed"
+      [] OTHER              -> TRUE
+AllDialectsOf(m, route) ==
     CASE route = "ugrid"     -> UgridDs(m)
       [] route = "topology"  -> TopoDs(m)
       [] route = "mpas"      -> MpasDs(m)
@@ -381,6 +450,7 @@ DialectsOf(m, route) ==
       [] route = "icon"      -> IconDs(m)
       [] route = "geo"       -> GeoDs(m)
       [] route = "verts"     -> VertsDs(m)
+DialectsOf(m, route) == IF m.big THEN { d \in AllDialectsOf(m, route) : ThinOK(route, d) } ELSE AllDialectsOf(m, route)
 
 StoredSrc(m, route, d) ==
     CASE route = "ugrid"     -> UgridStored(m, d)
@@ -400,7 +470,7 @@ Decode(src) ==
     CASE src.route = "ugrid"     -> UgridDecodeTable(src, IF src.face_axis = 2 THEN Untransposed(src.face_node) ELSE src.face_node)
       [] src.route = "topology"  -> TopoDecodeTable(src, src.face_node)
       [] src.route = "mpas"      -> MpasDecodeCounted(src.verticesOnCell, src.nEdgesOnCell)
-      [] src.route = "mpas_dual" -> MpasDecodeZeros(src.cellsOnVertex)
+      [] src.route = "mpas_dual" -> MpasDualDecode(src.cellsOnVertex)
       [] src.route = "scrip"     -> ScripDecode(src)
       [] src.route = "exodus"    -> ExoDecode(src)
       [] src.route = "esmf"      -> EsmfDecode(src)
@@ -414,8 +484,12 @@ ExpFaces(m, route, d) ==
     CASE route = "exodus" -> LET p == ExoPerm(m, d) IN [ k \in 1..Len(p) |-> m.faces[p[k]] ]
       [] route = "geo"    -> LET p == GeoPerm(m, d) IN [ k \in 1..Len(p) |-> m.faces[p[k]] ]
       [] route = "verts"  -> VertsFaces(m, d)
+      \* regional MPAS dual: one row per vertex of the file; a vertex whose cells are not all present keeps
+      \* the present ones (Complete says which rows are triangles)
+      [] route = "mpas_dual" /\ m.xrows # <<>> -> [ r \in 1..Len(m.xrows) |-> SelectSeq(m.xrows[r], LAMBDA x : x # -1) ]
       [] OTHER            -> m.faces
 Expected(m, route, d) == Canonical(ExpFaces(m, route, d))
+Complete(m, route, d) == LET F == ExpFaces(m, route, d) IN [ r \in 1..Len(F) |-> Len(F[r]) >= 3 ]
 FacePerm(m, route, d) ==          \* 0-based source face of each expected face (centres follow it)
     CASE route = "exodus" -> LET p == ExoPerm(m, d) IN [ k \in 1..Len(p) |-> p[k] - 1 ]
       [] route = "geo"    -> LET p == GeoPerm(m, d) IN [ k \in 1..Len(p) |-> p[k] - 1 ]
@@ -438,15 +512,22 @@ Carried(m, route, d) ==
         \* only the edge table is supplied: it is carried over, and the face_edge table the Grid derives later
         \* must index it (derive_fe asks the harness to derive face_edge BEFORE it reads the edge table)
         eo == [ edge_node |-> E, derive_fe |-> TRUE ]
+        ar == [ face_areas |-> AreaTags(Len(F)) ]
+        \* MPAS: on the primal mesh an edge's nodes are vertices (dvEdge) and its faces cells (dcEdge);
+        \* on the dual it is the other way round
+        dp == [ edge_node_dist |-> DvTags(Len(E)), edge_face_dist |-> DcTags(Len(E)) ]
+        dd == [ edge_node_dist |-> DcTags(Len(E)), edge_face_dist |-> DvTags(Len(E)) ]
     IN CASE route = "ugrid"     -> Opt(d.extras = "edges", edges @@ ce) @@ Opt(d.extras = "edges" /\ (d.fill # "none" \/ IsClosed(m)), ef)
                                    @@ Opt(d.extras = "edge_only", eo)
          [] route = "topology"  -> Opt(d.extras = "edges", edges) @@ Opt(d.extras = "edge_only", eo)
-         [] route = "mpas"      -> nf @@ Opt(d.extras = "edges", edges @@ ef @@ ce)
-         [] route = "mpas_dual" -> nf @@ ce
-         [] route = "scrip"     -> ce
-         [] route = "esmf"      -> [ npf |-> [ f \in 1..Len(F) |-> Len(F[f]) ] ] @@ Opt(d.centres = "yes", ce)
+         [] route = "mpas"      -> nf @@ Opt(d.extras = "edges", edges @@ ef @@ ce @@ ar @@ dp)
+         [] route = "mpas_dual" -> IF m.xrows # <<>> THEN EmptyFn
+                                   ELSE nf @@ ce @@ Opt(d.extras = "edges", edges @@ ef @@ ar @@ dd)
+         [] route = "scrip"     -> ce @@ ar
+         [] route = "esmf"      -> [ npf |-> [ f \in 1..Len(F) |-> Len(F[f]) ] ] @@ Opt(d.centres = "yes", ce @@ ar)
          [] route = "geos"      -> Opt(d.centres = "yes", ce)
-         [] route = "icon"      -> edges @@ ef @@ ce @@ [ face_face |-> Pad(SrcFaceFaces(F), 3) ]
+         [] route = "icon"      -> edges @@ ef @@ ce @@ [ face_face |-> PadMax([ f \in 1..Len(F) |->
+                                       SelectSeq(IconFaceFaces(F)[f], LAMBDA x : x # -1) ]) ]
          [] OTHER               -> EmptyFn
 
 \* connectivity declared by the topology variable must be carried over as it is; a table that is only
@@ -457,6 +538,7 @@ CarryExact(route, d) == ~(route = "ugrid" /\ d.topo = "cfrole")
 \* abstract facts about a case that known-finding signatures may refer to (all decided here)
 Tags(m, route, d) ==
     [ mixed |-> ~Uniform(m), node0_unused |-> Node0Unused(m), partial |-> ~IsClosed(m),
+      regional |-> m.xrows # <<>>, big |-> m.big,
       nblocks |-> IF route = "exodus" THEN (IF Len(ExoGroups(m, d)) > 1 THEN ">1" ELSE "1") ELSE "-",
       multipart |-> route = "geo" /\ \E g \in Range(GeoGrouping(m, d)) : Len(g) > 1,
       based |-> CASE route \in { "ugrid", "topology", "esmf" } -> d.start [] OTHER -> "-",
@@ -496,14 +578,17 @@ ExpectedStandard == IsCase =>
     LET X == Expected(M, route, d)
     IN /\ TableInStandardForm(X, 0, NN(M) - 1)
        /\ MeshOf(X) = ExpFaces(M, route, d)
-       /\ \A f \in 1..Len(X) : SimpleFace(MeshOf(X)[f])
+       /\ \A f \in 1..Len(X) : LET face == MeshOf(X)[f] IN
+             /\ \A i, j \in 1..Len(face) : i # j => face[i] # face[j]
+             /\ (Complete(M, route, d)[f] <=> Len(face) >= 3)
+             /\ (Len(face) >= 3 \/ (route = "mpas_dual" /\ M.xrows # <<>> /\ Len(face) >= 1))
 
 \* the element order a format imposes is a permutation of the faces (identity for a single block / polygons)
 PermOK == IsCase =>
     LET p == FacePerm(M, route, d)
     IN /\ Len(p) = Len(ExpFaces(M, route, d))
        /\ \A i, j \in 1..Len(p) : i # j => p[i] # p[j]
-       /\ (route \notin { "verts" } => Range(p) = 0..(Len(M.faces) - 1))
+       /\ ((route \notin { "verts" } /\ M.xrows = <<>>) => Range(p) = 0..(Len(M.faces) - 1))
        /\ ((route = "exodus" /\ Tags(M, route, d).nblocks = "1") => p = [ k \in 1..Len(p) |-> k - 1 ])
 
 \* supplied connectivity is itself a correct description of the mesh (relations of Mesh.tla)
@@ -533,12 +618,17 @@ ExtrasRoundTrip == IsCase =>
               /\ (Has(c, "face_edge") => MpasDecodeCounted(src.edgesOnCell, src.nEdgesOnCell) = c.face_edge)
               /\ (Has(c, "edge_face") => MpasDecodeZeros(src.cellsOnEdge) = c.edge_face)
          [] route = "mpas_dual" ->
-              MpasDecodeCounted(src.verticesOnCell, src.nEdgesOnCell) = c.node_face
+              /\ (Has(c, "node_face") => MpasDecodeCounted(src.verticesOnCell, src.nEdgesOnCell) = c.node_face)
+              /\ (Has(c, "edge_node") => MpasDecodeZeros(src.cellsOnEdge) = c.edge_node)
+              /\ (Has(c, "face_edge") => MpasDecodeZeros(src.edgesOnVertex) = c.face_edge)
+              /\ (Has(c, "edge_face") => MpasDecodeZeros(src.verticesOnEdge) = c.edge_face)
          [] route = "icon" ->
-              /\ IconDecodeTable(src.edge_vertices) = c.edge_node
-              /\ IconDecodeTable(src.edge_of_cell) = c.face_edge
-              /\ IconDecodeTable(src.adjacent_cell_of_edge) = c.edge_face
-              /\ IconDecodeTable(src.neighbor_cell_index) = c.face_face
+              LET sameSets(A, B) == Len(A) = Len(B) /\ \A r \in 1..Len(A) : Range(Unpadded(A[r])) = Range(Unpadded(B[r]))
+              IN /\ IconDecodeTable(src.edge_vertices) = c.edge_node
+                 /\ IconDecodeTable(src.edge_of_cell) = c.face_edge
+                 \* a 0 decodes to "absent" in its slot; the carried table has the same cells per row
+                 /\ sameSets(IconDecodeTable(src.adjacent_cell_of_edge), c.edge_face)
+                 /\ sameSets(IconDecodeTable(src.neighbor_cell_index), c.face_face)
          [] OTHER -> TRUE
 
 (* ---- emission (generation channel) ------------------------------------------------------------ *)
@@ -554,6 +644,7 @@ EmitCase == IsCase =>
                         keeps_ids |-> KeepsNodeIds(route),
                         carried |-> Carried(M, route, d),
                         carry_exact |-> CarryExact(route, d),
+                        complete |-> Complete(M, route, d),
                         tags |-> Tags(M, route, d),
                         nn |-> NN(M) ] >>)
 =============================================================================
